@@ -11,7 +11,8 @@ CLAIMED = {
         'text': 'Static, exhaustive over the compiled program (all paths of all exported &mut DelaunayTriangulation '
                 'operations, dev and release cfg): the spatial duplicate index is updated or dropped on every path '
                 'that adds a vertex, is cleared after the Tds is re-keyed, the duplicate query dominates every '
-                'insertion attempt, candidates are re-resolved before the distance test, and slot-map insertion '
+                'insertion attempt, candidates are re-resolved before the distance test, the coordinates filed in the index '
+                'are read back from vertex storage, and slot-map insertion '
                 'happens only behind the UUID vacancy check. This is the cache-coherence and gating half of the '
                 'property; the tolerance arithmetic is not decided.',
         'note': 'Trusted: rustc MIR and callee resolution; external slot-map/hash-map methods classified by name '
@@ -26,8 +27,9 @@ CLAIMED = {
                 'adds/removes a cell or vertex or replaces the Tds bumps the generation counter; every hull query '
                 'touches triangulation storage only behind the fresh edge of the creation-generation comparison; '
                 'the counter is only ever incremented. Decides the staleness clause, not the geometric hull clause.',
-        'note': 'Trusted: rustc MIR; two whole-Tds replacements are table entries with reasons (bootstrap simplex; '
-                'heuristic rebuild = open item F9). In-place cell edits that do not change the key set are not covered.',
+        'note': 'Trusted: rustc MIR; a whole-Tds replacement counts as bumped only when the replacement called '
+                'Tds::inherit_generation_from(live) (exception table empty since fix F12); Clone for Tds must share the '
+                'counter. In-place cell edits that do not change the key set are not covered.',
         'technique': 'interprocedural effect-pairing dataflow + must-pass-through (dominance) checks over rustc MIR',
         'design': '§5 C11',
     },
@@ -36,7 +38,8 @@ CLAIMED = {
 CLAIMED['C13'] = {
     'text': 'Static: field coverage of the Serialize/Deserialize impls of Tds, Cell, Vertex and Point against their ADT '
             'field lists (a field that is neither written nor in the reasoned skip table is reported by name), writer '
-            'names = reader names, and must-pass-through: every Ok exit of the Tds deserialiser lies behind the '
+            'names = reader names, no persisted field of a parsed element is overwritten with a value not derived from the '
+            'input before it is stored, and must-pass-through: every Ok exit of the Tds deserialiser lies behind the '
             'success edges of the neighbour / incident-cell rebuild and of a call covering all Level-2 and Level-1 '
             'validators. Decides the "nothing silently dropped" and "inconsistent input is rejected" clauses, not '
             'round-trip equality.',
@@ -50,7 +53,8 @@ CLAIMED['C16'] = {
     'text': 'Static: every f64::rem_euclid result is re-clamped against the modulus before use (half-open box, '
             'idempotence); every exported insertion-by-location on DelaunayTriangulation passes coordinate '
             'canonicalisation before the vertex can reach storage; the toroidal builder arms canonicalise, construct '
-            'from the canonicalised vertices and record the topology before Ok. Decides the wrapping-mode clauses '
+            'from the canonicalised vertices and record the topology before Ok; no exported operation other than '
+            'set_global_topology changes the recorded topology on any path (whole-receiver replacements must copy it). Decides the wrapping-mode clauses '
             'structurally; the periodic image-point mode is not decided.',
     'note': 'Trusted: rustc MIR; the canonicalisation leaf is GlobalTopologyModel::canonicalize_point_in_place (any '
             'impl); congruence modulo the period is arithmetic and not decided.',
@@ -64,7 +68,8 @@ CLAIMED['C19'] = {
             'argument), of the 5 recursive call-graph cycles with their bound idioms re-checked, of the explicit panic '
             'sites per function against a classified table, a ban on keyed slot-map indexing, and a call-graph fixed '
             'point showing that a caller-supplied vertex passes a finiteness validation before it can reach storage '
-            '(constructors and k=1 flips are reasoned table entries). Decides "no unbounded loop / recursion, no new '
+            '(constructors and k=1 flips are reasoned table entries); helpers that assert hull freshness are called only '
+            'behind the typed staleness check. Decides "no unbounded loop / recursion, no new '
             'panic site, non-finite input gated"; not complexity, stack depth or arithmetic asserts.',
     'note': 'Trusted: rustc MIR; finiteness of std/slotmap/smallvec iterators; the LOOP / PANIC / FINITE tables in '
             'engine/rules/c19.py (each entry with a reason). Idiom classifiers: an unrecognised but correct new loop or '
@@ -81,7 +86,8 @@ CLAIMED['C03'] = {
             'owner contracts. Every internal error return is covered at once — the quantifier the suite cannot reach.',
     'note': 'Trusted: rustc MIR; derive(Clone) of Tds; field-sensitive MOD summaries with external hand-out / mutating '
             'method classification; 1 restore-by-inverse table entry, 1 infeasible edge, 9 assumed-infeasible exits with '
-            'reasons (3 value correlations, 6 = open item F2). Non-storage receiver fields are not covered.',
+            'reasons (3 value correlations, 6 = open item F2); 2 benign cache callees and the locate hint are '
+            'declared caches.',
     'technique': 'interprocedural rollback (snapshot/restore) dataflow over rustc MIR',
     'design': '§4.2, §5 C03',
 }
